@@ -33,9 +33,6 @@ Proof. intros H E. pose proof (lastn_padded_length pad p h) as L. rewrite E in L
 Lemma hd_map {A B} (f : A -> B) (l : list A) d : hd (f d) (map f l) = f (hd d l).
 Proof. destruct l; reflexivity. Qed.
 
-Lemma map_repeat' {A B} (f : A -> B) (a : A) n : map f (repeat a n) = repeat (f a) n.
-Proof. induction n as [|n IH]; cbn; [reflexivity|rewrite IH; reflexivity]. Qed.
-
 Lemma tl_map {A B} (f : A -> B) (l : list A) : tl (map f l) = map f (tl l).
 Proof. destruct l; reflexivity. Qed.
 
@@ -63,5 +60,8 @@ Lemma INR_IZR_N (n : nat) : IZR (Z.of_N (N.of_nat n)) = INR n.
 Proof. rewrite nat_N_Z. symmetry. apply INR_IZR_INZ. Qed.
 
 (* push Fin through the total operations *)
-Ltac xfin := cbn [zero one two three c100 c50 c0_1 c0_015 XROps];
-  repeat first [rewrite xr_mul_fin | rewrite xr_add_fin | rewrite xr_sub_fin | rewrite xr_abs_fin | rewrite xr_neg_fin].
+Ltac xfin :=
+  change (zero XROps) with (Fin 0%R); change (one XROps) with (Fin 1%R); change (two XROps) with (Fin 2%R);
+  change (three XROps) with (Fin 3%R); change (c100 XROps) with (Fin 100%R); change (c50 XROps) with (Fin 50%R);
+  change (c0_1 XROps) with (Fin (1 / 10)%R); change (c0_015 XROps) with (Fin (15 / 1000)%R);
+  repeat first [rewrite xr_mul_fin | rewrite xr_add_fin | rewrite xr_sub_fin | rewrite xr_abs_fin | rewrite xr_neg_fin | rewrite xr_ofN].
